@@ -351,7 +351,8 @@ def rule_rank(ctx) -> None:
                     parts = [src(e) for e in k.body.elts] if isinstance(k, ast.Lambda) and isinstance(k.body, ast.Tuple) else []
                     if len(parts) == 2 and parts[0].startswith("-") and parts[1].endswith(".id"):
                         good.append(m)
-                grow = [m for m in cfg.nodes if any(dd.name == lst and dd.kind == "mutate" for dd in rd.defs.get(m, []))]
+                grow = [m for m in cfg.nodes if any(dd.name == lst and dd.kind == "mutate" and not (isinstance(dd.target, ast.Call) and dd.target.func.attr in ("sort",))
+                                                    for dd in rd.defs.get(m, []))]
                 p = None
                 for g in grow + [x.node for x in rd.all_defs if x.name == lst and x.kind == "assign"]:
                     pp = cfg.path([g], lambda t: t is d.node, avoid=lambda t: t in good, include_start=False)
